@@ -187,6 +187,9 @@ type GuardQuery struct {
 	MaxDepth   int
 	// NoInline: callee names never descended into (result top)
 	NoInline map[string]bool
+	// ThroughSite, if set, restricts the reported returns of Root to those
+	// reachable (over executable edges) from the block of this instruction.
+	ThroughSite ssa.Instruction
 	// Observe, if set, is called after the fixpoint of every analysed function
 	// context for each call instruction in an executable block.
 	Observe func(in *ssa.Function, site ssa.CallInstruction, callee string, get func(ssa.Value) lat)
@@ -822,8 +825,27 @@ func (e *gEngine) analyse(f *ssa.Function, args []lat, depth int) *fnAnalysis {
 			}
 		}
 	}
+	var through map[int]bool
+	if e.q.ThroughSite != nil && f == e.q.Root && depth == 0 && e.q.ThroughSite.Block() != nil {
+		through = map[int]bool{}
+		stack := []int{e.q.ThroughSite.Block().Index}
+		through[stack[0]] = true
+		for len(stack) > 0 {
+			n := stack[len(stack)-1]
+			stack = stack[:len(stack)-1]
+			for _, sb := range f.Blocks[n].Succs {
+				if execEdge[edge{n, sb.Index}] && !through[sb.Index] {
+					through[sb.Index] = true
+					stack = append(stack, sb.Index)
+				}
+			}
+		}
+	}
 	for _, b := range f.Blocks {
 		if !execBlock[b.Index] {
+			continue
+		}
+		if through != nil && !through[b.Index] {
 			continue
 		}
 		if r, ok := b.Instrs[len(b.Instrs)-1].(*ssa.Return); ok {
